@@ -16,7 +16,8 @@ sys.path.insert(0, os.path.dirname(os.path.abspath(__file__)))
 import dlib  # noqa: E402
 import c15_enc as enc  # noqa: E402
 
-from traits.observation import parsing  # noqa: E402
+from traits.api import Any, HasTraits, List  # noqa: E402
+from traits.observation import expression, parsing  # noqa: E402
 from traits.observation._anytrait_filter import anytrait_filter  # noqa: E402
 from traits.observation._dict_item_observer import DictItemObserver  # noqa: E402
 from traits.observation._filtered_trait_observer import FilteredTraitObserver  # noqa: E402
@@ -77,9 +78,100 @@ def outcome(s, keep=False):
     return {"o": "graphs", "g": [graph(g) for g in gs]}, gs
 
 
+class Probe(HasTraits):
+    a = Any()
+    b = Any()
+    c = Any()
+    items = Any()
+    name = List()
+
+
+def _handler(event):
+    pass
+
+
+def run_single(s):
+    """Outcome of the text plus `stable`: the answer is the same when asked again (lru caches warm), after the
+    compiled graphs were used to hook and unhook observers on an object, and after the caches were dropped."""
+    first = outcome(s)[0]
+    again = outcome(s)[0]
+    try:
+        p = Probe(a=Probe(b=Probe(), name=[Probe()]), b=Probe(), name=[Probe(), Probe()])
+        p.observe(_handler, s)
+        p.observe(_handler, s, remove=True)
+        p.observe(_handler, [s, "b"])
+        p.observe(_handler, [s, "b"], remove=True)
+    except BaseException:   # noqa: B902  (a missing trait etc.: the graphs were still handed out)
+        pass
+    used = outcome(s)[0]
+    parsing.parse.cache_clear()
+    parsing.compile_str.cache_clear()
+    expression.compile_expr.cache_clear()
+    fresh = outcome(s)[0]
+    first["stable"] = bool(again == first and used == first and fresh == first)
+    return first
+
+
+def build_node(n):
+    k = n[0]
+    w = "".join(chr(c) for c in n[1]) if k == "N" else None
+    if k == "N":
+        return expression.trait(w, notify=n[2], optional=n[3])
+    if k == "F":
+        if n[2] == "any":
+            return expression.anytrait(notify=n[1])
+        return expression.metadata("".join(chr(c) for c in n[2][1]), notify=n[1])
+    return {"D": expression.dict_items, "L": expression.list_items, "S": expression.set_items}[k](
+        notify=n[1], optional=n[2])
+
+
+def chain(a, n):
+    """a.<method>(...) for a single observer n: the chaining methods of ObserverExpression."""
+    k = n[0]
+    if k == "N":
+        return a.trait("".join(chr(c) for c in n[1]), notify=n[2], optional=n[3])
+    if k == "F":
+        if n[2] == "any":
+            return a.anytrait(notify=n[1])
+        return a.metadata("".join(chr(c) for c in n[2][1]), notify=n[1])
+    return getattr(a, {"D": "dict_items", "L": "list_items", "S": "set_items"}[k])(notify=n[1], optional=n[2])
+
+
+def build_expr(e, style):
+    """e = ["single", node] | ["series", a, b] | ["par", a, b]; style picks among equivalent API spellings."""
+    k = e[0]
+    if k == "single":
+        return build_node(e[1])
+    if k == "par":
+        return build_expr(e[1], style) | build_expr(e[2], style)
+    a = build_expr(e[1], style)
+    if style % 3 == 1 and e[2][0] == "single":
+        return chain(a, e[2][1])
+    b = build_expr(e[2], style)
+    if style % 3 == 2:
+        return expression.join(a, b)
+    return a.then(b)
+
+
+def run_expr(c):
+    try:
+        ex = build_expr(c["e"], c.get("style", 0))
+    except BaseException as e:   # noqa: B902
+        return {"o": "crash", "exc": "build:" + type(e).__name__}
+    try:
+        gs = expression.compile_expr(ex)
+    except ValueError:
+        return {"o": "cerr"}
+    except BaseException as e:   # noqa: B902
+        return {"o": "crash", "exc": type(e).__name__}
+    return {"o": "graphs", "g": [graph(g) for g in gs]}
+
+
 def run_case(c):
+    if c["kind"] == "expr":
+        return run_expr(c)
     if c["kind"] == "single":
-        return outcome(c["s"])[0]
+        return run_single(c["s"])
     o1, g1 = outcome(c["s1"])
     # registration by one text, removal by the other: a fresh parse of the second text (cache dropped)
     parsing.parse.cache_clear()
